@@ -193,6 +193,17 @@ def scenario(seed, cause, point, consumer, lines, restart=True):
         peer = {}
 
         def until():
+            # the moment the application could first SEE Closed: whoever observes the node then (is it closed? may I start it
+            # again?) must find the sockets of the ended connection released - at every scheduler step, not only at the end
+            if obs["phase"] == "cause-applied" and socks and not obs.get("early"):
+                try:
+                    stn = d.get_current_state()
+                except BaseException as e:
+                    if isinstance(e, (KeyboardInterrupt, SystemExit)):
+                        raise
+                    stn = None
+                if stn == "Closed" and not socks[0].closed and not socks[0].refused:
+                    obs["early"] = "the node reports Closed while the socket of the ended connection is still open"
             for k in socks:
                 st = peer.setdefault(id(k), {"cea": False, "off": 0, "dpa": False})
                 if k.refused:
@@ -228,7 +239,7 @@ def scenario(seed, cause, point, consumer, lines, restart=True):
         info = {"status": status, "phase": obs["phase"], "state": state, "first_socket_closed": bool(first and first.closed),
                 "consumer": obs["consumer"], "alive": alive, "excs": excs, "second": obs["second"], "send_after": obs["send_after"],
                 "teardown_at": teardown["at"], "cause_at": obs["cause_at"], "steps": s.steps, "sockets": len(socks),
-                "close_exc": obs["close_exc"], "loop_evals_after_teardown": {"%s:%s" % k: v for k, v in evals.items()}}
+                "close_exc": obs["close_exc"], "loop_evals_after_teardown": {"%s:%s" % k: v for k, v in evals.items()}, "early": obs.get("early")}
     finally:
         s.kill()
         undo()
@@ -320,6 +331,15 @@ def server_scenario(seed, cause, consumer, lines):
         served = {}
 
         def until():
+            if obs["phase"] == "cause-applied" and conns and not obs.get("early"):
+                try:
+                    stn = d.get_current_state()
+                except BaseException as e:
+                    if isinstance(e, (KeyboardInterrupt, SystemExit)):
+                        raise
+                    stn = None
+                if stn == "Closed" and (not conns[0].closed or (listeners and not listeners[0].closed)):
+                    obs["early"] = "the node reports Closed while the connection / listening socket is still open"
             for L in listeners:
                 if id(L) not in served and not L.closed:
                     c = simlib.FakeSock(s)
@@ -348,7 +368,7 @@ def server_scenario(seed, cause, consumer, lines):
         info = {"status": status, "phase": obs["phase"], "state": state, "first_socket_closed": bool(conns and conns[0].closed),
                 "listener_closed": bool(listeners and listeners[0].closed), "consumer": obs["consumer"], "alive": alive, "excs": excs,
                 "second": obs["second"], "send_after": None, "teardown_at": teardown["at"], "cause_at": None, "steps": s.steps,
-                "sockets": len(listeners) + len(conns), "close_exc": obs["close_exc"], "loop_evals_after_teardown": {}}
+                "sockets": len(listeners) + len(conns), "close_exc": obs["close_exc"], "loop_evals_after_teardown": {}, "early": obs.get("early")}
     finally:
         s.kill()
         undo()
@@ -360,6 +380,9 @@ def verdict(info, cause, consumer):
     """the statement's clauses; returns (clause, detail, finding) or None"""
     if info["phase"] in ("setup",):
         return None                                   # the connection never reached the chosen point (scheduler budget)
+    if info.get("early"):
+        return (info["early"] + " (an application that restarts the node on Closed does so with the old sockets and threads alive)",
+                {"state_at_end": info["state"]}, None)
     if info["phase"] == "cause-applied":
         # the connection did not end
         finding = FINDING_SILENT if cause == "local-silent" and info["state"] == "Closing" else None
